@@ -115,6 +115,11 @@ def claim_of(run, result):
         # still running when the watchdog fired: only a canonically divergent run explains that
         return "running", 1, "hung"
     ret = result["ret"]
+    if run.get("mode") == "unsafe" and run.get("pregrow") and result.get("tapeGrowths", 0) > 0:
+        # C10: the unchecked run must stay inside the region it was given; a reallocation of the tape
+        # (hook IN_TAPE_GROWTH, counted by the harness allocator) means it left it
+        return "crashed", 0, "static-run-reallocated-the-tape-%d-times:left-the-pre-allocated-region" % \
+            result["tapeGrowths"]
     if ret in ("ok", "true"):
         if run.get("inAbsent") and not result.get("fault"):
             return "returned", 0, ret     # a missing input source leaves no trace to tell stopped from complete
@@ -148,6 +153,7 @@ def make_trace(tid, case, run, result):
         "detail": detail,
         "refused": result.get("allocFailed", 0),
         "inSilent": 0,
+        "accel": case.get("accel", 0),
     }
 
 
@@ -239,6 +245,8 @@ def witness(case, run, trace, verdict, profile=None):
             w[k] = run[k]
     if profile:
         w["profile"] = profile
+    if case.get("accel"):
+        w["accel"] = 1            # canonical run with linear loops summarised (population H)
     w["observed"] = {"log": trace["log"], "claim": trace["claim"], "detail": trace["detail"]}
     w["tlc"] = {"verdict": verdict["verdict"], "why": verdict["why"]}
     return w
